@@ -17,8 +17,8 @@ from harness import leaves as lv
 from harness.common import fhex, fparse
 
 PROPERTY = "C01"
-GROUPS = ["leaves", "bij"]
-EXTRA_PROPS = ["Props/X01_bij.v"]  # inverse / log-det laws for every combinator tree (Model/Bij.v)
+GROUPS = ["leaves", "bij", "autoreg"]
+EXTRA_PROPS = ["Props/X01_bij.v", "Props/X01_autoreg.v", "Props/X09_bnaf.v"]  # inverse / log-det laws for every combinator tree (Model/Bij.v)
 MANIFEST = {
     "design_ref": "DESIGN.md 4.1",
     "technique": "Coq proofs over R of both inverse laws for every leaf formula (incl. boundary points) and for chain/invert/lift/autoregressive wiring + executed correspondence of the extracted model with the real bijections",
@@ -149,6 +149,8 @@ def run(ctx):
             )
     flows_oracle(ctx)
     from harness import bijinv
+    from harness import autoreg
+    autoreg.run_units(ctx, theorems=False)  # real MaskedAutoregressive / Coupling layers (conditioner MLP included) vs Model/AutoregNet.v
     bijinv.run_units(ctx)  # combinator trees: exact round trips + opposite log-dets, real flowjax vs extracted Model/Bij.v
     ctx.assumptions += ["inputs restricted to the domain (codomain) of each map and to magnitudes where the float image does not saturate",
                         "theorems are over R: float rounding is outside the model"]
